@@ -262,7 +262,9 @@ class C12(core.Property):
             "mpaxos / fpaxos commands: 70 % from the palette, as the value of a KV set command or as the raw command applied by an echo StateMachine; mpaxos / fpaxos (MultiPaxosNode / FlexiblePaxosNode, 2-8 "
             "start/submit calls on random nodes; fpaxos: (q1,q2) with q1+q2>n, mostly asymmetric in both directions and tight (q1+q2=n+1), n 3-5, "
             "half of the cases the take-over scenario: a leader cut off with exactly q1 (or q1+-1, q2-1, q2) nodes on its side runs phase 1 and proposes "
-            "inside the partition, heal, a node of the other side takes over with another command for the same slot); slow-prepare take-over (mpaxos 70% / fpaxos: "
+            "inside the partition, heal, a node of the other side takes over with another command for the same slot); stable leader 10 % (fault-free: 2-7 commands parked on one node, its single start(), per-link constant latency for what the leader sends, "
+            "every Accepted message with a latency of its own so that acknowledgements of later slots overtake those of earlier ones — later-faster / one slot slow / first slot slow / random; "
+            "run long enough for everything to arrive); slow-prepare take-over (mpaxos 70% / fpaxos: "
             "the new leader's link to the old leader is 4-45x slower than the others, commands submitted to the old leader from 2 ms before to `slow` ms after the instant it "
             "promises and to the new leader around the instant it leads, optional later start() rounds); election (LeaderElection x Bully/Ring/Randomized, "
             "uniform member views; join scenario: a node unknown to the group (mostly the highest id) knows everybody, runs its first election late, add_member around that "
@@ -304,6 +306,10 @@ class C12(core.Property):
         "with a Promise (recorded message) has public is_leader false afterwards; from that promise until a phase-1 response leaves it leader again "
         "(is_leader false -> true, or >= q1 responses for that ballot number) it neither makes its public log grow inside submit() nor sends an Accept. "
         "Leadership kept across a delivered Accept / regained through promises for an older ballot number (both true of the pinned tree) is not judged by this rule",
+        "bounded progress (mpaxos|fpaxos/progress/replicated-slot-never-committed-by-stable-leader, …/future-never-resolved-by-stable-leader): judged only on quiet fault-free stable-leader runs — "
+        "exactly one start() in the whole run, no partition op, and every Prepare / Promise / Accept / Accepted / Nack recorded as sent was delivered before the end (delivery watchdog not hit).  Then every "
+        "(slot, command) the leader sent an Accept for is in the leader's committed prefix at the end, and the submit() future of that command is resolved with (slot, that command's result).  "
+        "Commands the leader never replicated (submitted after it led, or to another node) are not covered",
         "agreement trigger (mpaxos|fpaxos/agreement/two-values/<trigger>): the two-values signature is suffixed with how the second command reached the slot, read from "
         "the recorded Accept and Promise messages: value-never-proposed-for-slot | one-ballot-two-proposers | after-leader-change-ignoring-promise-logs | "
         "after-leader-change; no suffix = one node proposed both commands for the slot under one ballot (none of the pinned tree's mechanisms)",
@@ -320,6 +326,9 @@ class C12(core.Property):
                   "MP.deposed_leader_never_assigns / MP.deposed_judge_silent: every action's node index is < n (the harness has nodes 0..n-1 only)",
                   "El.election_one_leader_per_term_static / El.static_views_leader_is_highest: UniformViews n views — n nodes, each given a duplicate-free member list of exactly 0..n-1 "
                   "(any insertion order); no add_member during the run; a Victory / LeaderHeartbeat / Token is delivered only if it was sent (El.enabled)",
+                  "MP.stable_leader_commits_any_ack_order / MP.stable_leader_resolves_future: every action of the sequence is an Accepted delivery or a handler of a node other than the leader "
+                  "(StableAct); the slot lies inside the leader's log, an acknowledgement for it is in the sequence and the counted acknowledgements reach q2 by the end; for the future: the leader has applied "
+                  "what it committed (Caught) and the future is registered for the slot",
                   "promise_judge_silent: lo is a subset and hi a superset of the votes of the run, proms a subset of its promises"]
     partial_theorems = {
         "slot_agreement": "Multi-Paxos / Flexible-Paxos slot agreement is REFUTED for the pinned tree (slot_agreement_current_false, "
@@ -332,6 +341,13 @@ class C12(core.Property):
                                         "(El.election_one_leader_per_term_static, El.static_views_leader_is_highest) in the message-soup system El.Sys of HappyModel/C12/ElSoup.lean: "
                                         "Victory / LeaderHeartbeat / Token deliveries need a sent message (kept forever: duplication, reordering, loss), timers, challenges, suppressions and "
                                         "ballots are unconstrained, no add_member.  Trusted link: the engine delivers only payloads that were sent (the per-step replay compares every sent payload)",
+        "stable_leader_progress (bounded liveness, Multi-Paxos / Flexible Paxos)": "judged: in a quiet fault-free stable-leader run every slot the leader replicated is committed on it and its "
+            "submit() future resolved with its own command (mpaxos|fpaxos/progress/…).  Proved for all states and all stable action sequences, from the instant the leader has assigned its slots: "
+            "MP.stable_leader_commits_any_ack_order, MP.stable_leader_resolves_future (acknowledgements of different slots in any order, duplicates, other nodes' handlers interleaved).  MP.new_leader_commits_parked_commands composes them with "
+            "_become_leader (the i-th parked command gets slot len + i + 1 with one acknowledgement and its future; MP.promise_quorum_becomes_leader / MP.start_alone_becomes_leader: the two call sites).  Not proved: "
+            "the end-to-end form from `init` over the submit / start / promise steps for arbitrary command lists (MP.stable_leader_progress_full is stated; its instance n = 3, two commands is an example by decide).  Not covered, "
+            "because false of the pinned tree: a command submitted to an *established* leader is appended but never replicated (submit() returns no events), a command submitted to a non-leader is parked; "
+            "followers learn the commit index only from later Accepts / heartbeats (MultiPaxosNode stops heartbeating after its first own tick) — 'applied at every node' is not judged",
         "single_proposer_decides (liveness)": "not stated: bounded-progress form needs an engine-time model; the fault-free single-proposer schedules in the paxos family all decide (checked by the judge only for safety)",
         "paxos current variant": "stepCur is exact on the two corpus witnesses but approximates duplicate Accept/Accepted messages of the pinned tree (at-most-once slots)",
     }
@@ -339,6 +355,8 @@ class C12(core.Property):
     # ------------------------------------------------------------------ dispatch
     def generate(self, rng, i, tier):
         k = i % 10
+        if i % 20 in (12, 15):
+            return self._with_cmd_palette(rng, self.gen_stable_leader(rng, tier))
         if k in (0, 5):
             return self.gen_lock(rng, tier)
         if i % 20 == 18:
@@ -802,6 +820,60 @@ class C12(core.Property):
             case["q1"], case["q2"] = self._fp_quorums(rng, n)
         return case
 
+    def gen_stable_leader(self, rng, tier):
+        """Multi-Paxos / Flexible Paxos, fault-free, one stable leader: 2-7 commands are submitted to node `p`, then the
+        one and only start() is called on `p`: on its phase-1 quorum it assigns the slots 1..k and replicates them all at
+        the same instant.  Every link of the leader has its own constant latency for what the leader sends (so Accepts stay
+        in slot order on each link), while every Accepted message gets a latency of its own, drawn so that acknowledgements
+        for later slots overtake acknowledgements for earlier ones (mostly: the later the slot the faster its acks; or
+        one slot's acks much slower than all others; or plain random).  No partition, no loss, nobody else starts; the run
+        lasts long enough for every message to arrive.  Sometimes a command reaches `p` after it leads (appended, never
+        replicated on the pinned tree: not covered by the progress clause) or another node (parked)."""
+        ms = 1_000_000
+        n = rng.choice([3, 3, 4, 5])
+        flex = rng.random() < 0.3
+        p = rng.randrange(n)
+        k = rng.choice([2, 2, 3, 3, 4, 5, 7])
+        ops, t = [], 0
+        for c in range(1, k + 1):
+            ops.append({"t": t, "op": "submit", "node": p, "cmd": c})
+            t += rng.choice([0, 0, 1, 3]) * ms
+        t_s = t + rng.choice([0, 1, 10]) * ms
+        ops.append({"t": t_s, "op": "start", "node": p})
+        linklat, latmap = {}, {}
+        for d in range(n):
+            if d != p:
+                linklat[f"{p}>{d}"] = rng.choice([1, 1, 2, 5, 10]) * ms
+                linklat[f"{d}>{p}"] = rng.choice([1, 1, 2, 5]) * ms            # promises (and acks not listed below)
+        shape = rng.choice(["later-faster", "later-faster", "one-slow", "random", "first-slow"])
+        slow_slot = rng.randrange(1, k + 1)
+        for d in range(n):
+            if d == p:
+                continue
+            for slot in range(1, k + 1):
+                if shape == "later-faster":
+                    lat = (k - slot) * rng.choice([3, 5, 10]) + rng.choice([1, 2])
+                elif shape == "one-slow":
+                    lat = rng.choice([40, 60]) if slot == slow_slot else rng.choice([1, 2, 3])
+                elif shape == "first-slow":
+                    lat = 50 if slot == 1 else rng.choice([1, 5, 10])
+                else:
+                    lat = rng.choice([1, 2, 5, 10, 30, 50])
+                latmap[f"Accepted:{d}:{p}:1:{slot}"] = lat * ms
+        cmd = k
+        if rng.random() < 0.15:
+            cmd += 1
+            ops.append({"t": t_s + rng.choice([30, 80]) * ms, "op": "submit", "node": p, "cmd": cmd})
+        if rng.random() < 0.15:
+            cmd += 1
+            ops.append({"t": rng.choice([0, t_s + 20 * ms]), "op": "submit", "node": rng.choice([i for i in range(n) if i != p]), "cmd": cmd})
+        ops.sort(key=lambda o: o["t"])
+        case = {"family": "fpaxos" if flex else "mpaxos", "n": n, "ops": ops, "lat": [ms], "linklat": linklat, "latmap": latmap,
+                "hb_ms": 1000 if flex else rng.choice([1000, 1000, 50, 3]), "end_ms": t_s // ms + 400}
+        if flex:
+            case["q1"], case["q2"] = self._fp_quorums(rng, n)
+        return case
+
     def impl_fpaxos(self, case):
         return self.impl_mpaxos(case)
 
@@ -1028,6 +1100,11 @@ class C12(core.Property):
         q2 = case.get("q2", n // 2 + 1) if flex else n // 2 + 1
         body = []
         fid = 0
+        # for the bounded-progress clause (stable leader): start() calls, partition ops, protocol messages sent / delivered
+        kinds = {"Prepare": "prepare", "Promise": "promise", "Accept": "accept", "Accepted": "accepted", "Nack": "nack"}
+        n_start, starter, n_sent, n_dlv = 0, 0, 0, 0
+        n_part = sum(1 for o in case["ops"] if o["op"] == "partition")
+        step_cut = sum(1 for l in impl_out if l.startswith("step ")) >= MAX_STEPS      # delivery watchdog hit: not quiet
         ci_of = [0] * n                # last observed log.commit_index per node
         ldr_of = ["0"] * n             # last observed is_leader per node
         len_of = [0] * n               # last observed length of the public log per node
@@ -1042,6 +1119,11 @@ class C12(core.Property):
             st = impl_out[k].split()   # "node i b B L x ldr y ci c ap a log LG"
             k += 1
             node, bal, ldr, ci = int(st[1]), st[3], st[5], int(st[9])
+            if act[0] == "start":
+                n_start += 1
+                starter = node
+            elif act[0] in kinds.values():
+                n_dlv += 1
             ents = [] if st[13] == "-" else [e.split(":")[1] for e in st[13].split(",")]
             sent, futs = [], []
             while k < N and not impl_out[k].startswith("step "):
@@ -1049,6 +1131,8 @@ class C12(core.Property):
                 k += 1
                 if e[0] == "send":
                     sent.append(e)
+                    if e[1] in kinds:
+                        n_sent += 1
                 elif e[0] == "fut":
                     futs.append(e)
             if act[0] == "submit":
@@ -1094,6 +1178,11 @@ class C12(core.Property):
             body.append(f"com {node} " + " ".join(ents[:ci]))
             for e in futs:
                 body.append(f"fut {e[1]} {e[2]} {e[3]}")
+        # `cnt leader starts partitions sent delivered`: the run is a *quiet fault-free stable-leader run* iff one start(),
+        # no partition, every Prepare / Promise / Accept / Accepted / Nack that was sent has been delivered (watchdog not hit)
+        if step_cut:
+            n_sent += 1
+        body.append(f"cnt {starter} {n_start} {n_part} {n_sent} {n_dlv}")
         mode = "strict" if self.strict_commit_quorum else "acks"
         return (f"judge-log {case['family']} {n} {q1} {q2} {mode}", body)
 
@@ -1660,6 +1749,11 @@ THEOREMS = [
     "HappyModel.C12.MP.leader_needs_phase1_quorum",
     "HappyModel.C12.MP.leader_judge_silent",
     "HappyModel.C12.MP.leader_on_phase2_quorum_violates_spec",
+    "HappyModel.C12.MP.stable_leader_commits_any_ack_order",
+    "HappyModel.C12.MP.stable_leader_resolves_future",
+    "HappyModel.C12.MP.new_leader_commits_parked_commands",
+    "HappyModel.C12.MP.stuck_stable_leader_violates_spec",
+    "HappyModel.C12.MP.pending_future_violates_spec",
     "HappyModel.C12.MP.promise_clears_leadership",
     "HappyModel.C12.MP.deposed_leader_never_assigns",
     "HappyModel.C12.MP.deposed_judge_silent",
